@@ -153,10 +153,16 @@ struct BadRunner {
         return "";
     }
 
-    std::string unchanged(const std::string &before, long double beforeW, const std::string &what) {
+    // `copyBefore`: a copy of the graph taken before the rejected call(s); operator== is an observer too
+    // (it sees state that no index-taking observer can reach, e.g. a label stored for an invalid pair)
+    std::string unchanged(const std::string &before, long double beforeW, const std::string &what, const G *copyBefore = nullptr) {
         std::string r = e.checkNow(observer);
         if (!r.empty())
             return "after rejected call " + what + ": " + r;
+        if (copyBefore && (!(e.g == *copyBefore) || !(*copyBefore == e.g) || e.g != *copyBefore)) {
+            observer = "state-changed(operator==)";
+            return "after rejected call " + what + " the graph no longer compares equal to a copy taken before the call";
+        }
         if (e.lastExact != before || e.lastTotalW != beforeW) {
             observer = "state-changed";
             return "rejected call " + what + " changed the observable state\n--- before\n" + before + "--- after\n" + e.lastExact;
@@ -171,10 +177,11 @@ struct BadRunner {
         unsigned mask = en.nvtx == 3 ? 1 : (unsigned)(op.u(1) % full) + 1;
         std::string before = e.lastExact;
         long double bw = e.lastTotalW;
+        G copyBefore(e.g);
         std::string r = cell(en, mask, (unsigned)op.u(2), (unsigned)op.u(3), (unsigned)op.u(4), (unsigned)op.u(5));
         if (!r.empty())
             return r;
-        return unchanged(before, bw, cellText);
+        return unchanged(before, bw, cellText, &copyBefore);
     }
 
     std::string all(std::string &entryName) {
@@ -183,6 +190,7 @@ struct BadRunner {
             entryName = en.name;
             std::string before = e.lastExact;
             long double bw = e.lastTotalW;
+            G copyBefore(e.g);
             unsigned full = en.nvtx == 3 ? 1 : (1u << en.nvtx) - 1;
             for (unsigned mask = 1; mask <= full; ++mask)
                 for (unsigned bk = 0; bk < 4; ++bk)
@@ -196,7 +204,7 @@ struct BadRunner {
                         }
                     }
             if (!en.isConst || &en == &tab.back()) {
-                std::string r = unchanged(before, bw, std::string("(one of the cells of ") + en.name + ")");
+                std::string r = unchanged(before, bw, std::string("(one of the cells of ") + en.name + ")", &copyBefore);
                 if (!r.empty())
                     return r;
             }
